@@ -364,6 +364,41 @@ def rustc_oracle(rep, rng):
 
 
 # ------------------------------------------------------------------------------------------------------------
+def import_check_sites():
+    """where the crate decides about imports: every call of `is_imported(..)` outside src/check.rs::channels_import and every `check::<f>(..)`
+    call of the crate (hook excluded) -> (calls of is_imported by enclosing fn, [(file, callee, argument text)])"""
+    import rs
+    inside, calls = {}, []
+
+    def walk(ts, rel, fn):
+        i = 0
+        while i < len(ts):
+            t = ts[i]
+            if t.k == "id" and t.s == "fn" and i + 1 < len(ts) and ts[i + 1].k == "id":
+                name = ts[i + 1].s
+                j = i + 2
+                while j < len(ts) and not (ts[j].k == "g" and ts[j].s == "{") and not rs.is_p(ts[j], ";"):
+                    j += 1
+                if j < len(ts) and ts[j].k == "g":
+                    walk(ts[j].sub, rel, name)
+                i = j + 1
+                continue
+            if t.k == "id" and t.s == "is_imported" and i + 1 < len(ts) and ts[i + 1].k == "g" and ts[i + 1].s == "(" and fn != "is_imported":
+                inside.setdefault("%s::%s" % (rel, fn), []).append(rs.render(ts[i + 1].sub))
+            if (t.k == "id" and t.s == "check" and i + 3 < len(ts) and rs.is_p(ts[i + 1], "::") and ts[i + 2].k == "id" and ts[i + 3].k == "g" and ts[i + 3].s == "("):
+                calls.append((rel, ts[i + 2].s, rs.render(ts[i + 3].sub)))
+            if t.k == "g":
+                walk(t.sub, rel, fn)
+            i += 1
+    root = os.path.join(hook.REPO, "src")
+    for dp, _, fs in os.walk(root):
+        for f in sorted(fs):
+            rel = os.path.relpath(os.path.join(dp, f), hook.REPO)
+            if f.endswith(".rs") and rel != "src/verif_hook.rs":
+                walk(rs.parse(open(os.path.join(dp, f), errors="replace").read()), rel, "<top>")
+    return inside, calls
+
+
 def replay_known(rep):
     """fixed findings are replayed as ordinary obligations (they must pass now): F6"""
     jobs, want = [], []
@@ -423,6 +458,15 @@ def run(rep):
     if problems or bad:
         rep.violation("theorems", {"what": "property theorem file no longer checks", "problems": problems, "hygiene": bad}, found=False)
     replay_known(rep)
+    # the model's acceptance function IS `channels_import lib manifest`: the entry points must decide about imports there and nowhere else
+    inside, calls = import_check_sites()
+    rep.extra["import_check_sites"] = {"is_imported called in": inside, "check:: calls": calls}
+    sole = (set(inside) == {"src/check.rs::channels_import"} and bool(calls)
+            and all(c[1] == "channels_import" and re.sub(r"\s+", "", c[2]) == "&aaa.lib" for c in calls) and sorted(set(c[0] for c in calls)) == ["src/lib.rs"] and len(calls) == 2)
+    if not rep.oblige(sole):
+        rep.violation("import_sites", {"what": "the import decision of the entry points is no longer `check::channels_import(&aaa.lib)` alone (premise of C12_check_exact / C12_accept_resolves, "
+                                               "whose acceptance function is Gen/Paths.v `channels_import`): is_imported is called in %s, check:: calls %s" % (sorted(inside), calls),
+                                       "searched": "the corpus expanded under manifests declaring exactly the documented crates (accept_* violations, if any, are the failing inputs)"}, found=False)
     h_tie(rep, rng)
     t_tie(rep, rng)
     if rep.tier == "thorough":
